@@ -628,6 +628,10 @@ class TorrentFileHybrid(MetaFile, ProgMixin):
         if os.path.isfile(self.path):
             info["file tree"] = {self.name: self._traverse(self.path)}
             info["length"] = os.path.getsize(self.path)
+            tail = info["length"] % self.piece_length
+            if tail:
+                # a single file is not followed by a padding file
+                self.pieces[-1] = utils.sha1_tail(self.path, tail)
 
         else:
             info["file tree"] = self._traverse(self.path)
@@ -735,6 +739,10 @@ class TorrentAssembler(MetaFile, ProgMixin):
         if os.path.isfile(self.path):
             info["file tree"] = {self.name: self._traverse(self.path)}
             info["length"] = os.path.getsize(self.path)
+            tail = info["length"] % self.piece_length
+            if self.hybrid and tail:
+                # a single file is not followed by a padding file
+                self.pieces[-20:] = utils.sha1_tail(self.path, tail)
 
         else:
             info["file tree"] = self._traverse(self.path)
